@@ -23,11 +23,11 @@ ASSUMPTIONS = [
     "when the exception reaches the caller, 'stop' has nothing left to observe",
 ]
 ENUM_EXHAUSTIVE = {
-    "thorough": "63 policies x 2 routes x 10 override settings x 6 error kinds x (4 offending-line patterns x 3 component positions + 1 header-row-at-line-0 case + 1 stop()-on-the-offending-line case)",
+    "thorough": "63 policies x 2 routes x 11 override settings x 7 error kinds x (4 offending-line patterns x 3 component positions + 1 header-row-at-line-0 case + 1 stop()-on-the-offending-line case)",
 }
 
 FLAGS = ["raise", "collect", "stop", "fail", "print", "quiet"]
-OVERRIDES = [None, "raise", "no-raise", "stop", "no-stop", "fail", "no-fail", "print", "no-print", "match"]
+OVERRIDES = [None, "raise", "no-raise", "stop", "no-stop", "fail", "no-fail", "print", "no-print", "match", "no-match"]
 KINDS = {
     # kind: (component, benign value, offending value)
     "args": ('@z = add(#v, 1)', "5", "x"),
@@ -36,6 +36,10 @@ KINDS = {
     "nested": ('not(equals(add(#v, 1), 0))', "5", "x"),
     "when": ('yes() -> @z = add(#v, 1)', "5", "x"),
     "emptyval": ('not(#id == "") -> @z = add(#v, 1)', "5", "x"),
+    # a component that is False on some of the benign lines (v = 2): an error on an earlier line must not
+    # change what later lines decide
+    # (between() itself rejects the offending value: the top-level function's own argument check fails)
+    "falsey": ('between(#v, 3, 9)', ["5", "2"], "x"),
 }
 BADS = [[0], [2], [4], [1, 3]]
 
@@ -85,7 +89,9 @@ def enumerate_cases(tier, seed):
 def run_case(case, sb):
     comp, good, badv = KINDS[case["kind"]]
     bad = case["bad"]
-    records = [["id", "v"]] + [[f"d{i}", badv if i in bad else good] for i in range(5)]
+    goods = good if isinstance(good, list) else [good]
+    records = [["id", "v"]] + [[f"d{i}", badv if i in bad else goods[i % len(goods)]] for i in range(5)]
+    false_lines = [i + 1 for i in range(5) if i not in bad and goods[i % len(goods)] == "2"] if case["kind"] == "falsey" else []
     lastblank = case.get("lastblank", False)
     if lastblank:
         records.append([])
@@ -119,6 +125,9 @@ def run_case(case, sb):
         exp["lines_run"] = [1, 2, 3, 4, 5]
         exp["returned_must"] = [1, 2, 3, 4, 5]
         exp["returned_must_not"] = []
+    if false_lines and not lastblank:
+        exp["returned_must"] = [n for n in exp["returned_must"] if n not in false_lines]
+        exp["returned_must_not"] = sorted(set(exp["returned_must_not"]) | set(n for n in false_lines if n in exp["lines_run"]))
     labels = [f"kind:{case['kind']}", f"route:{case['route']}", f"override:{ov}",
               "policy:" + "+".join(pol)] if False else [f"kind:{case['kind']}", f"route:{case['route']}", f"override:{ov}"]
     labels += ["flag:" + f for f in pol]
